@@ -27,6 +27,8 @@ Fixpoint model_answers (s : hstate) (h : list hcmd) : list (option (option obs))
       match c with
       | HObsListing | HObsDuration =>
           Some (match hs_nodes s with Some ns => Some (model_obs (hs_env s) ns) | None => None end) :: model_answers s t
+      | HObsCopy =>
+          Some (match hs_nodes s with Some ns => Some (model_obs (hs_env s) (copy_nodes (hs_env s) ns)) | None => None end) :: model_answers s t
       | HObsOther => None :: model_answers s t
       | _ => model_answers (hstep s c) t
       end
